@@ -62,30 +62,27 @@ namespace TAO_PEGTL_NAMESPACE
       }
 
       template< typename Rule,
-                apply_mode A,
-                rewind_mode M,
-                template< typename... >
-                class Action,
                 template< typename... >
                 class Control,
+                typename F,
                 typename ParseInput,
                 typename... States >
-      [[nodiscard]] auto match_control_unwind( ParseInput& in, States&&... st )
+      [[nodiscard]] auto match_control_unwind( const F& f, ParseInput& in, States&&... st )
       {
 #if defined( __cpp_exceptions )
          if constexpr( has_unwind< Control< Rule >, void, const ParseInput&, States... > ) {
             unwind_guard ug( [ & ] {
                Control< Rule >::unwind( static_cast< const ParseInput& >( in ), st... );
             } );
-            const auto result = match_no_control< Rule, A, M, Action, Control >( in, st... );
+            const auto result = f();
             ug.unwind.reset();
             return result;
          }
          else {
-            return match_no_control< Rule, A, M, Action, Control >( in, st... );
+            return f();
          }
 #else
-         return match_no_control< Rule, A, M, Action, Control >( in, st... );
+         return f();
 #endif
       }
 
@@ -139,21 +136,25 @@ namespace TAO_PEGTL_NAMESPACE
 
          auto m = in.template auto_rewind< ( use_guard ? rewind_mode::required : rewind_mode::optional ) >();
          Control< Rule >::start( static_cast< const ParseInput& >( in ), st... );
-         auto result = internal::match_control_unwind< Rule, A, ( use_guard ? rewind_mode::optional : M ), Action, Control >( in, st... );
-         if( result ) {
-            if constexpr( has_apply_void ) {
-               Control< Rule >::template apply< Action >( m.inputerator(), static_cast< const ParseInput& >( in ), st... );
+         const auto match_and_apply = [ & ]() {
+            auto r = internal::match_no_control< Rule, A, ( use_guard ? rewind_mode::optional : M ), Action, Control >( in, st... );
+            if( r ) {
+               if constexpr( has_apply_void ) {
+                  Control< Rule >::template apply< Action >( m.inputerator(), static_cast< const ParseInput& >( in ), st... );
+               }
+               else if constexpr( has_apply_bool ) {
+                  r = Control< Rule >::template apply< Action >( m.inputerator(), static_cast< const ParseInput& >( in ), st... );
+               }
+               else if constexpr( has_apply0_void ) {
+                  Control< Rule >::template apply0< Action >( static_cast< const ParseInput& >( in ), st... );
+               }
+               else if constexpr( has_apply0_bool ) {
+                  r = Control< Rule >::template apply0< Action >( static_cast< const ParseInput& >( in ), st... );
+               }
             }
-            else if constexpr( has_apply_bool ) {
-               result = Control< Rule >::template apply< Action >( m.inputerator(), static_cast< const ParseInput& >( in ), st... );
-            }
-            else if constexpr( has_apply0_void ) {
-               Control< Rule >::template apply0< Action >( static_cast< const ParseInput& >( in ), st... );
-            }
-            else if constexpr( has_apply0_bool ) {
-               result = Control< Rule >::template apply0< Action >( static_cast< const ParseInput& >( in ), st... );
-            }
-         }
+            return r;
+         };
+         auto result = internal::match_control_unwind< Rule, Control >( match_and_apply, in, st... );
          if( result ) {
             Control< Rule >::success( static_cast< const ParseInput& >( in ), st... );
          }
